@@ -16,9 +16,11 @@ one() {
     if echo "$R" | grep -q 'patch does not apply'; then echo "NOAPPLY $d"; elif [ "$N" -gt 0 ]; then echo "caught $d $N"; else echo "MISSED $d $(echo "$R" | tail -1 | cut -c1-120)"; fi
   done > $OUT/$P.txt 2>&1
 }
-for P in C01 C02 C03 C04 C05 C06 C07 C08 C09 C10 C11 C12 C13 C14 C15 C16 C17 C18 C19 C20; do
+N=0
+for P in ${PROPS:-C15 C20 C17 C01 C09 C07 C02 C18 C08 C10 C13 C16 C06 C14 C03 C12 C11 C05 C04 C19}; do
   one $P &
-  while [ "$(jobs -r | wc -l)" -ge "$J" ]; do sleep 5; done
+  N=$((N+1))
+  if [ $((N % J)) -eq 0 ]; then wait; fi   # POSIX sh has no "jobs -r": run in batches of J
 done
 wait
 cat $OUT/*.txt | grep -v '^caught' ; echo "caught: $(cat $OUT/*.txt | grep -c '^caught')  of $(ls -d seeded/*/ | wc -l)"
